@@ -122,3 +122,37 @@ def deterministic_node_hash(tree=None):
         for node in ast.walk(tree):
             _hash_counter[0] += 1
             node.__dict__['_vh'] = _hash_counter[0]
+
+
+# --- module-level state of the code under test -----------------------------------------------------------------------
+class ModuleState(object):
+    """Mutable module-level containers (dict/list/set) of a module, captured when the harness is imported and restored
+    before every harness execution: CrossHair re-executes the harness once per path in one process, so state that the
+    code under test keeps in module globals would leak from path to path ("NotDeterministic") - and within one
+    execution it must start pristine so that multi-step scenarios see exactly the state a fresh process would."""
+
+    def __init__(self, module):
+        import copy
+        self.module = module
+        self.baseline = {}
+        for k, v in list(module.__dict__.items()):
+            if isinstance(v, (dict, list, set)) and not k.startswith('__'):
+                try:
+                    self.baseline[k] = copy.deepcopy(v)
+                except Exception:  # noqa
+                    pass
+
+    def reset(self):
+        import copy
+        for k, v in list(self.module.__dict__.items()):
+            if isinstance(v, (dict, list, set)) and not k.startswith('__'):
+                if k in self.baseline:
+                    fresh = copy.deepcopy(self.baseline[k])
+                else:
+                    fresh = type(v)()
+                if isinstance(v, dict):
+                    v.clear(); v.update(fresh)
+                elif isinstance(v, list):
+                    v[:] = fresh
+                else:
+                    v.clear(); v.update(fresh)
